@@ -86,3 +86,125 @@ Theorem C11_stream_tables_from_source :
   (forall v, payload_status_of v = table_fn src_payload_status 0 v).
 Proof. exact (conj (proj1 stream_magic_src) (conj (proj2 stream_magic_src) (conj payload_type_src payload_status_src))). Qed.
 Print Assumptions C11_stream_tables_from_source.
+
+(* TIE TO THE SOURCE CODE (gen/StreamParseSrc.v, re-translated by tools/translate_streamparse.py on every run from
+   device/src/u3v/protocol/stream.rs, cameleon/src/u3v/stream_handle.rs and cameleon/src/payload.rs; cursor reads,
+   slicing and loops mean what model/RdOps.v says, integer operations what lib/RustInt.v says).
+   src_X are the TRANSLATED functions; to_leader / to_trailer / to_il / to_il_ext / to_payload (proofs/P_C11s.v) only
+   rename the fields of the translated structs to those of the models. *)
+From Cam Require Import RustInt RdOps StreamParseSrc P_C11s.
+
+(* Leader::parse and the three specific leaders: for EVERY byte list the translated decoder returns what the model
+   returns - Ok with the same fields, the same error class, or a panic in the same cases; the getters return their own
+   fields; the magic, the payload type table and the pixel format conversion are those of the regenerated tables *)
+Theorem C11_leader_parse_from_source :
+  (forall bs, omap to_leader (src_Leader_parse bs) = parse_leader bs) /\
+  (forall raw, omap to_il (src_ImageLeader_from_bytes raw) = parse_image_leader raw) /\
+  (forall raw, omap to_il_ext (src_ImageExtendedChunkLeader_from_bytes raw) = parse_image_leader raw) /\
+  (forall raw, omap src_ChunkLeader_timestamp (src_ChunkLeader_from_bytes raw) = parse_chunk_leader raw) /\
+  (forall T (f : list Z -> outcome T) l, src_Leader_specific_leader_as f l = f (l_raw (to_leader l))) /\
+  (forall l, src_Leader_leader_size l = l_size (to_leader l) /\ src_Leader_block_id l = l_block_id (to_leader l) /\
+             src_Leader_payload_type l = l_type (to_leader l)) /\
+  (forall il, show_src_il il = show_il (to_il il)) /\ (forall il, show_src_il_ext il = show_il (to_il_ext il)) /\
+  src_Leader_LEADER_MAGIC = src_leader_magic /\
+  (forall v, src_PayloadType_try_from v = table_fn src_payload_type 0 v) /\
+  (forall c, r_map_err E_INVALID_PACKET (pixel_try_from c) = pf_of_code c).
+Proof. exact leader_parse_from_source_all. Qed.
+Print Assumptions C11_leader_parse_from_source.
+
+(* Trailer::parse (status through the translated table, valid_payload_size, trailer_size) and the specific trailers *)
+Theorem C11_trailer_parse_from_source :
+  (forall bs, omap to_trailer (src_Trailer_parse bs) = parse_trailer bs) /\
+  (forall raw, omap src_ImageTrailer_actual_height (src_ImageTrailer_from_bytes raw) = parse_image_trailer raw) /\
+  (forall raw, omap (fun t => (src_ImageExtendedChunkTrailer_actual_height t, src_ImageExtendedChunkTrailer_chunk_layout_id t))
+                    (src_ImageExtendedChunkTrailer_from_bytes raw) = parse_ext_trailer raw) /\
+  (forall raw, omap src_ChunkTrailer_chunk_layout_id (src_ChunkTrailer_from_bytes raw) = parse_chunk_trailer raw) /\
+  (forall T (f : list Z -> outcome T) t, src_Trailer_specific_trailer_as f t = f (t_raw (to_trailer t))) /\
+  (forall t, src_Trailer_trailer_size t = t_size (to_trailer t) /\ src_Trailer_block_id t = t_block_id (to_trailer t) /\
+             src_Trailer_payload_status t = t_status (to_trailer t) /\
+             src_Trailer_valid_payload_size t = t_valid (to_trailer t)) /\
+  src_Trailer_TRAILER_MAGIC = src_trailer_magic /\
+  (forall v, src_PayloadStatus_try_from v = table_fn src_payload_status 0 v).
+Proof. exact trailer_parse_from_source_all. Qed.
+Print Assumptions C11_trailer_parse_from_source.
+
+(* PayloadBuilder::build with its three branches, as translated (status check, valid_payload_size against the received
+   count, the `as usize` casts, the backwards chunk walk with its checked subtractions, its slice and its overflow
+   checks), is the model's build for every leader, trailer, buffer and received count that the Rust types can hold
+   (u64 / usize values, a buffer shorter than 2^64, bytes below 256); the loop body is the model's chunk walk for every
+   fuel; the translated views payload() / image() are the model's views, into_vec() has the valid length and equals
+   payload() when that does not panic *)
+Theorem C11_builder_bounds_from_source :
+  (forall l t buf rs,
+     bytes_ok (l_raw l) -> bytes_ok (t_raw t) -> bytes_ok buf ->
+     0 <= t_valid t < 2 ^ 64 -> 0 <= rs < 2 ^ 64 -> zlen buf < 2 ^ 64 ->
+     omap to_payload (src_PayloadBuilder_build (S (Z.to_nat (t_valid t / 8))) (mk_builder l t buf rs)) =
+     build l t buf rs) /\
+  (forall pb fuel off, bytes_ok (PayloadBuilder_payload_buf pb) -> zlen (PayloadBuilder_payload_buf pb) < 2 ^ 64 ->
+     r_loop fuel (src_PayloadBuilder_build_image_extended_payload_loop pb) off =
+     chunk_walk fuel (PayloadBuilder_payload_buf pb) off) /\
+  (forall p, 0 <= Payload_valid_payload_size p -> src_Payload_payload p = view_payload (to_payload p)) /\
+  (forall p, (forall ii, Payload_image_info p = Some ii -> 0 <= ImageInfo_image_size ii) ->
+     src_Payload_image p = view_image (to_payload p)) /\
+  (forall p, 0 <= Payload_valid_payload_size p <= zlen (Payload_payload p) ->
+     omap Some (src_Payload_into_vec p) = omap Some (src_Payload_payload p)) /\
+  (forall p v, 0 <= Payload_valid_payload_size p -> src_Payload_into_vec p = Ok v ->
+     zlen v = Payload_valid_payload_size p) /\
+  (forall p, src_Payload_id p = p_id (to_payload p) /\ src_Payload_payload_type p = p_type (to_payload p) /\
+             src_Payload_timestamp p = p_timestamp (to_payload p) /\
+             option_map to_info (src_Payload_image_info p) = p_info (to_payload p)) /\
+  E_STREAM_INVALID_PAYLOAD = E_INVALID_PAYLOAD.
+Proof. exact builder_bounds_from_source. Qed.
+Print Assumptions C11_builder_bounds_from_source.
+
+(* the property's clause stated on the translated code alone: whatever leader and trailer bytes arrive, when the
+   translated decoders and the translated builder return Ok (fuel above valid / 8), the payload carries the leader's
+   block id and the buffer, valid size <= received count, and payload() / into_vec() / image() return prefixes of the
+   buffer without panicking, with image size <= valid size *)
+Theorem C11_views_in_bounds_of_source : forall lb tb buf rs fuel sl st p,
+  bytes_ok lb -> bytes_ok tb -> bytes_ok buf -> 0 <= rs <= zlen buf -> zlen buf < 2 ^ 64 ->
+  src_Leader_parse lb = Ok sl -> src_Trailer_parse tb = Ok st ->
+  Trailer_valid_payload_size st / 8 < Z.of_nat fuel ->
+  src_PayloadBuilder_build fuel {| PayloadBuilder_leader := sl; PayloadBuilder_payload_buf := buf;
+                                   PayloadBuilder_read_payload_size := rs; PayloadBuilder_trailer := st |} = Ok p ->
+  Payload_id p = Leader_block_id sl /\ Payload_payload p = buf /\
+  0 <= Payload_valid_payload_size p <= rs /\
+  src_Payload_payload p = Ok (take (Payload_valid_payload_size p) buf) /\
+  src_Payload_into_vec p = Ok (take (Payload_valid_payload_size p) buf) /\
+  match Payload_image_info p with
+  | None => src_Payload_image p = Ok None
+  | Some ii => 0 <= ImageInfo_image_size ii <= Payload_valid_payload_size p /\
+               src_Payload_image p = Ok (Some (take (ImageInfo_image_size ii) buf))
+  end.
+Proof. exact views_in_bounds_of_source. Qed.
+Print Assumptions C11_views_in_bounds_of_source.
+
+(* totality of the translated builder on decoded leaders and trailers: every fuel above valid / 8 gives the same
+   result, the chunk walk never stops for lack of fuel, and with received count <= buffer length nothing panics *)
+Theorem C11_builder_total_of_source : forall lb tb buf rs f1 f2 sl st,
+  bytes_ok lb -> bytes_ok tb -> bytes_ok buf -> 0 <= rs < 2 ^ 64 -> zlen buf < 2 ^ 64 ->
+  src_Leader_parse lb = Ok sl -> src_Trailer_parse tb = Ok st ->
+  Trailer_valid_payload_size st / 8 < Z.of_nat f1 -> Trailer_valid_payload_size st / 8 < Z.of_nat f2 ->
+  let pb := {| PayloadBuilder_leader := sl; PayloadBuilder_payload_buf := buf;
+               PayloadBuilder_read_payload_size := rs; PayloadBuilder_trailer := st |} in
+  omap to_payload (src_PayloadBuilder_build f1 pb) = omap to_payload (src_PayloadBuilder_build f2 pb) /\
+  src_PayloadBuilder_build f1 pb <> Err E_FUEL /\
+  (rs <= zlen buf -> src_PayloadBuilder_build f1 pb <> Panic).
+Proof. exact builder_total_of_source. Qed.
+Print Assumptions C11_builder_total_of_source.
+
+(* non-vacuity: an Image frame and an ImageExtendedChunk frame (two chunks) decoded and assembled by the translated
+   code, and the error classes of a short leader, a wrong payload type, a wrong magic, valid size > received *)
+Theorem C11_source_examples :
+  ex_run 1 8 8 [1; 2; 3; 4; 5; 6; 7; 8; 66; 66] =
+    Ok (51, 0, 8, 100, Some (4, 2, 1, 3, 0, 8), Ok (Some [1; 2; 3; 4; 5; 6; 7; 8]), Ok [1; 2; 3; 4; 5; 6; 7; 8],
+        Ok [1; 2; 3; 4; 5; 6; 7; 8]) /\
+  ex_run 0x4001 22 23 ex_chunks =
+    Ok (51, 1, 22, 100, Some (4, 2, 1, 3, 0, 4), Ok (Some [9; 9; 9; 9]), Ok (firstn 22 ex_chunks),
+        Ok (firstn 22 ex_chunks)) /\
+  ex_run 1 9 8 [1; 2; 3; 4; 5; 6; 7; 8; 66; 66] = Err E_STREAM_INVALID_PAYLOAD /\
+  src_Leader_parse (firstn 19 (ex_leader 1)) = Err E_BUFFER_IO /\
+  src_Leader_parse (ex_leader 2) = Err E_INVALID_PACKET /\
+  src_Trailer_parse (0 :: ex_trailer 8) = Err E_INVALID_PACKET.
+Proof. exact source_examples. Qed.
+Print Assumptions C11_source_examples.
